@@ -72,6 +72,7 @@ type Snap struct {
 	OtherDenoms map[string]string // hex(addr) -> coins string of non-stake balances (should stay empty)
 	Supply int64
 	Params types.Params
+	Rates  map[string]string // multi-token runs: the exchange-rate feed in force (harness-side state)
 
 	ParseErrs []string
 
@@ -114,6 +115,7 @@ func (h *Host) TakeSnapshot(ctx sdk.Context) *Snap {
 		ExpH: map[string]int64{}, NewH: map[string]int64{}, Req: map[string]*types.CompactRequest{},
 		Active15: map[string]bool{}, Resp: map[string]*types.Response{}, Vol: map[string]uint64{},
 		OwnerEarned: map[string]sdk.Coin{}, Bal: map[string]int64{}, OtherDenoms: map[string]string{},
+		Rates: copyRates(h.rates),
 	}
 	ctx = ctx.WithGasMeter(sdk.NewInfiniteGasMeter())
 	store := ctx.KVStore(h.app.GetKey(types.StoreKey))
